@@ -32,6 +32,8 @@ def mk_inputs(nr, nl, nc, nt, tagf=lambda *a: '', tag=''):
 
 TECHNIQUE += "; arrays as mutable objects: component views (np.real / np.imag), slices and element-wise arithmetic write through to the caller's tensors; view-aware in-place lint"
 
+TECHNIQUE += '; the forcing frequency taken of either sign, tests on it explored on every arm'
+
 def run(chk):
     repo = Repo(chk.repo)
     it = Interp(repo)
